@@ -12,7 +12,8 @@ Inductive lop :=
 | LFailOpen (code : Z) (lockleft : bool)
 | LExtOpen (h code : Z) (lockafter : bool)
 | LScanFail (h code : Z) (lockafter : bool)    (* an open whose directory scan is made to fail *)
-| LCloseRace (h : Z) (closes uses : list Z) (lockafter : bool).
+| LCloseRace (h : Z) (closes uses : list Z) (lockafter : bool)
+| LDirChanged (h : Z).   (* a FAILED open left the directory different from what it was *)
 (* LCloseRace: several goroutines call Close on the same handle at once while others use it
    (codes: 0 ok, 3 "closed" error, 12 panic) *)
 
@@ -26,6 +27,7 @@ Definition plop : P lop :=
   else if t =? 6 then (h <- pz ;; c <- pz ;; l <- pbool ;; ret (LExtOpen h c l))
   else if t =? 7 then (h <- pz ;; c <- pz ;; l <- pbool ;; ret (LScanFail h c l))
   else if t =? 8 then (h <- pz ;; cs <- pzs ;; us <- pzs ;; l <- pbool ;; ret (LCloseRace h cs us l))
+  else if t =? 9 then (h <- pz ;; ret (LDirChanged h))
   else (fun _ => None).
 
 (** a complete open attempt of the model: try the lock, then scan (which succeeds) *)
@@ -88,6 +90,7 @@ Fixpoint lcheck (s : lstate) (i : Z) (ops : list lop) : list Z :=
              forallb (fun x => (x =? 3) || ((c =? 0) && (x =? 0))) uses && Bool.eqb (lock s') la
           then lcheck s' (i + 1) t
           else v_violation [i; Z.of_nat nok; if lock s' then 1 else 0]
+      | LDirChanged h => v_violation [i; -15; h]     (* "fails without modifying the directory" *)
       | LFailOpen code lockleft =>
           if negb (code =? 0) && negb lockleft then lcheck s (i + 1) t else v_violation [i; code]
       end
